@@ -362,7 +362,7 @@ func init() {
 					srv.c.Close()
 				}
 				client.VerifYield, client.VerifYieldBlocked = noop, noop
-				emit(map[string]interface{}{"k": "end", "act": map[string]interface{}{"a": "end", "dead": dead}, "obs": obs(0)})
+				emit(map[string]interface{}{"k": "end", "act": map[string]interface{}{"a": "end", "dead": r.Deadlock, "hung": r.Hung || r.Aborted}, "obs": obs(0)})
 			}
 			return onStep, finish
 		}
